@@ -798,6 +798,9 @@ func (p *c21Prop) exec(c *c21Case) (*Violation, *Result) {
 	// every instrumented mutex must be free again now that all tasks have returned (and is
 	// freed, so that the process can go on)
 	leftHeld := simrt.ReleaseLeftHeld()
+	if os.Getenv("HSIM_TRACE") != "" {
+		res.Extra["trace"] = firstSwitches(sr.Trace, 1<<30)
+	}
 	if os.Getenv("HSIM_FULL") != "" {
 		res.Extra["solo_results"] = solo
 		res.Extra["interleaved_results"] = conc
